@@ -197,7 +197,15 @@ impl<'de> Deserialize<'de> for PrimaryBlock {
                     .ok_or_else(|| de::Error::invalid_length(7, &self))?;
                 let lifetime = Duration::from_millis(lifetime_u64);
 
-                let rest = seq.size_hint().unwrap_or(0);
+                // Number of elements after the lifetime. Sequences without a length (JSON,
+                // indefinite-length CBOR arrays) give no size hint; there the 'is fragment'
+                // flag and the CRC type tell which of the optional fields follow.
+                let rest = seq.size_hint().unwrap_or_else(|| {
+                    let is_fragment =
+                        bundle_control_flags.contains(BundleControlFlags::BUNDLE_IS_FRAGMENT);
+                    let has_crc_field = crc_type == CRC_16 || crc_type == CRC_32;
+                    2 * usize::from(is_fragment) + usize::from(has_crc_field)
+                });
                 let mut fragmentation_offset: FragOffsetType = 0;
                 let mut total_data_length: TotalDataLengthType = 0;
 
